@@ -66,6 +66,14 @@ CLAIMED = {
          'termination (iteration bound), positive denominator, sign, range, exactness for representable ratios and the stated error bound otherwise, for nine (component type, float type) pairs through the constructor and make_fraction; strict where the pinned implementation can be held to the property (integers; ratios when the float type has >= D+16 digits), and a regression corpus of inputs that currently satisfy the property inside the region where it cannot',
          'one broad listed known finding: outside the strict regions make_fraction fails often (assertions, UB, wrong results, non-termination); there the check only protects the corpus inputs, so new defects confined to other inputs of that region are not seen. Termination is "within 1e5 loop iterations"',
          'DESIGN.md section 5 C17'),
+ 'C13': ('rapidcheck (value, buffer length, base) triples biased to tiny / capacity / exact-fit lengths + exhaustive value x length planes of 8-bit (quick) and 16-bit (thorough) reps, with pattern-filled guard zones around the buffer',
+         'no byte outside [first,last) may change, success returns first < p <= last with [p,last) untouched, failure returns {last, value_too_large}, no assertion / trap / signal / unbounded loop, and to_chars_static, to_string, operator<< and to_chars with a buffer of to_chars_capacity always succeed; over built-in integers in bases 2..36, 128-bit, wide, wrapper and scaled_integer types with exponents -70..70 and radix 2/3/8/10',
+         'out-of-bounds reads are not visible to guard zones; one listed known finding (most negative int/long/__int128); three defects found here were repaired (fix: commits 4f86af0, 1acdda9, 2f5ff9f) and are replayed as regressions',
+         'DESIGN.md section 5 C13'),
+ 'C14': ('the C13 cases on which to_chars succeeds, judged by a text oracle: GMP numerals for integers, an exact decimal parser and rational bounds for scaled_integer',
+         'integer text must equal the canonical numeral of the value in the requested base; scaled_integer text must parse by the stated grammar, carry the sign of the value, not exceed its magnitude, stay within one unit of the last printed digit (plus 1e-16 relative for the 64-bit significand) and be exact whenever the value has <= 18 significant digits and its expansion fits the buffer; the fixed-capacity variants must print what to_chars prints into a buffer of the static capacity',
+         'two listed known findings (most negative built-ins; positive-exponent reps above the int64 significand headroom lose low digits); the layout lengths used by the exactness rule mirror how CNL lays text out (no leading zero before the point, d.ddde[-]n)',
+         'DESIGN.md section 5 C14'),
 }
 
 def main():
